@@ -124,8 +124,10 @@ func (w *World) key1(v ssa.Value) string {
 				continue
 			}
 			k := w.key(e)
-			if strings.HasPrefix(k, "rec:") {
-				continue
+			if strings.Contains(k, "rec:") {
+				// an operand depends on the phi itself: loop-carried, no unique value
+				n = 2
+				break
 			}
 			if n == 0 || k != uniq {
 				if n > 0 {
@@ -481,4 +483,125 @@ func stripIface(v ssa.Value) ssa.Value {
 			return v
 		}
 	}
+}
+
+// loadsAgree: two values with equal keys that are loads of a heap location (a field reached
+// through a pointer) denote the same value only if no store to that field, and no call of a
+// module function that (transitively) stores to that field, can execute between them without
+// the first load being re-executed. Values that are not such loads agree trivially.
+func (w *World) loadsAgree(a, b ssa.Value) bool {
+	la, ok1 := stripIface(a).(*ssa.UnOp)
+	lb, ok2 := stripIface(b).(*ssa.UnOp)
+	if !ok1 || !ok2 || la.Op != token.MUL || lb.Op != token.MUL || la == lb {
+		return true
+	}
+	fa, okA := la.X.(*ssa.FieldAddr)
+	_, okB := lb.X.(*ssa.FieldAddr)
+	if !okA || !okB || la.Parent() != lb.Parent() {
+		return true
+	}
+	if _, isAlloc := rootAddr(fa).(*ssa.Alloc); isAlloc {
+		return true // locals are handled by the key itself
+	}
+	f := fieldOf(fa)
+	writes := w.fieldWritesIn(la.Parent(), f)
+	for _, wr := range writes {
+		if reachesAvoiding(la, wr, nil) && reachesAvoiding(wr, lb, la) {
+			return false
+		}
+		if reachesAvoiding(lb, wr, nil) && reachesAvoiding(wr, la, lb) {
+			return false
+		}
+	}
+	return true
+}
+
+// fieldWritesIn: instructions of fn that may write field f: stores to it, and calls of module
+// functions whose transitive store set contains f.
+func (w *World) fieldWritesIn(fn *ssa.Function, f *types.Var) []ssa.Instruction {
+	var out []ssa.Instruction
+	w.eachInstr(fn, func(in ssa.Instruction) {
+		switch x := in.(type) {
+		case *ssa.Store:
+			if fa, ok := x.Addr.(*ssa.FieldAddr); ok && fieldOf(fa) == f {
+				out = append(out, in)
+			}
+		case ssa.CallInstruction:
+			if cal := x.Common().StaticCallee(); cal != nil && w.IsMod[cal] && w.storeSet(cal)[f] {
+				out = append(out, in)
+			}
+		}
+	})
+	return out
+}
+
+// storeSet: fields stored to by fn or its module callees (static calls).
+func (w *World) storeSet(fn *ssa.Function) map[*types.Var]bool {
+	if w.storeSets == nil {
+		w.storeSets = map[*ssa.Function]map[*types.Var]bool{}
+	}
+	if s, ok := w.storeSets[fn]; ok {
+		return s
+	}
+	s := map[*types.Var]bool{}
+	w.storeSets[fn] = s
+	w.eachInstr(fn, func(in ssa.Instruction) {
+		switch x := in.(type) {
+		case *ssa.Store:
+			if fa, ok := x.Addr.(*ssa.FieldAddr); ok {
+				s[fieldOf(fa)] = true
+			}
+		case ssa.CallInstruction:
+			if cal := x.Common().StaticCallee(); cal != nil && w.IsMod[cal] {
+				for f := range w.storeSet(cal) {
+					s[f] = true
+				}
+			}
+		}
+	})
+	return s
+}
+
+// reachesAvoiding: a CFG path from just after `from` to `to` that does not execute `avoid`.
+func reachesAvoiding(from, to ssa.Instruction, avoid ssa.Instruction) bool {
+	bf, bt := from.Block(), to.Block()
+	if bf == nil || bt == nil || bf.Parent() != bt.Parent() {
+		return false
+	}
+	var ab *ssa.BasicBlock
+	ai := -1
+	if avoid != nil {
+		ab, ai = avoid.Block(), indexIn(avoid)
+	}
+	// within the starting block
+	fi, ti := indexIn(from), indexIn(to)
+	if bf == bt && fi < ti {
+		if !(ab == bf && ai > fi && ai < ti) {
+			return true
+		}
+	}
+	if ab == bf && ai > fi {
+		return false // the rest of the starting block executes avoid
+	}
+	seen := map[*ssa.BasicBlock]bool{}
+	stack := append([]*ssa.BasicBlock{}, bf.Succs...)
+	for len(stack) > 0 {
+		x := stack[len(stack)-1]
+		stack = stack[:len(stack)-1]
+		if seen[x] {
+			continue
+		}
+		seen[x] = true
+		if x == bt {
+			if !(ab == x && ai < ti) {
+				return true
+			}
+			continue
+		}
+		if x == ab {
+			continue // passing through this block executes avoid
+		}
+		stack = append(stack, x.Succs...)
+	}
+	return false
 }
